@@ -15,7 +15,7 @@ import sys
 from ..core import Check, classify_exception, vm_crosscheck
 
 PROP = "C03"
-TAG = dict(rm=1, dm=2, crm=3, cdm=4, erm=1, edm=2, ecrm=3)
+TAG = dict(rm=1, dm=2, crm=3, cdm=4, erm=1, edm=2, ecrm=3, ecdm=4)
 ADD, DEL, HAS, ROLES, USERS, CLEAR, COND, PARAMS, DUMP = range(9)
 ENFORCER_L = 10          # core_enforcer.py:init_rm_map builds every default manager with 10
 
@@ -82,6 +82,18 @@ g = _, _, (_, _)
 e = some(where (p.eft == allow))
 [matchers]
 m = g(r.sub, p.sub) && r.obj == p.obj && r.act == p.act
+""",
+    ecdm="""
+[request_definition]
+r = sub, dom, obj, act
+[policy_definition]
+p = sub, dom, obj, act
+[role_definition]
+g = _, _, _, (_, _)
+[policy_effect]
+e = some(where (p.eft == allow))
+[matchers]
+m = g(r.sub, p.sub, r.dom) && r.dom == p.dom && r.obj == p.obj && r.act == p.act
 """)
 ECRM_DEFAULT_PARAMS = [9, 9]     # the two parameter columns every conditional g rule is added with
 
@@ -109,14 +121,18 @@ def run_enforcer(kind, tbl, ops):
     m.load_model_from_text(MODEL_TEXT[kind])
     names, doms = _universe(ops)
     loaded = 0
-    if kind == "ecrm":
+    if kind in ("ecrm", "ecdm"):
         # add_grouping_policy on a conditional model raises KeyError('g') (management_enforcer.py:245 indexes
         # rm_map, which has no entry for a conditional g): the assignments come in through load_policy
         from casbin.persist.adapters.string_adapter import StringAdapter
-        lines = [f"p, {nm(b)}, o{b}, read" for b in names]
+        if kind == "ecrm":
+            lines = [f"p, {nm(b)}, o{b}, read" for b in names]
+        else:
+            lines = [f"p, {nm(b)}, {nm(d)}, o{b}, read" for b in names for d in doms]
         while loaded < len(ops) and ops[loaded][0] == ADD:
             op = ops[loaded]
-            lines.append("g, " + ", ".join([nm(op[1]), nm(op[2])] + [nm(p) for p in ECRM_DEFAULT_PARAMS]))
+            lines.append("g, " + ", ".join([nm(op[1]), nm(op[2])] + [nm(d) for d in op[3]]
+                                           + [nm(p) for p in ECRM_DEFAULT_PARAMS]))
             loaded += 1
         e = casbin.Enforcer(m, StringAdapter("\n".join(lines) + "\n"))
     else:
@@ -132,7 +148,7 @@ def run_enforcer(kind, tbl, ops):
     for op in ops[loaded:]:
         c = op[0]
         try:
-            if kind == "ecrm" and c in (ADD, DEL):
+            if kind in ("ecrm", "ecdm") and c in (ADD, DEL):
                 obs.append([998])                               # not generated (see above)
             elif c == ADD:
                 ok = e.add_grouping_policy(nm(op[1]), nm(op[2]), *[nm(d) for d in op[3]])
@@ -150,10 +166,17 @@ def run_enforcer(kind, tbl, ops):
                 r = e.get_users_for_role_in_domain(nm(op[1]), nm(op[2][0])) if op[2] else e.get_users_for_role(nm(op[1]))
                 obs.append([0, sorted(atom(x) for x in r)])
             elif c == COND:
-                e.add_named_link_condition_func("g", nm(op[1]), nm(op[2]), _cond_fn(t, op[4]))
+                if kind == "ecdm":
+                    e.add_named_domain_link_condition_func("g", nm(op[1]), nm(op[2]), nm(op[3]), _cond_fn(t, op[4]))
+                else:
+                    e.add_named_link_condition_func("g", nm(op[1]), nm(op[2]), _cond_fn(t, op[4]))
                 obs.append([0, []])
             elif c == PARAMS:
-                e.set_named_link_condition_func_params("g", nm(op[1]), nm(op[2]), *[nm(p) for p in op[4]])
+                ps = [nm(p) for p in op[4]]
+                if kind == "ecdm":
+                    e.set_named_domain_link_condition_func_params("g", nm(op[1]), nm(op[2]), nm(op[3]), *ps)
+                else:
+                    e.set_named_link_condition_func_params("g", nm(op[1]), nm(op[2]), *ps)
                 obs.append([0, []])
             else:
                 obs.append([998])
@@ -218,14 +241,14 @@ def run_impl(case):
 def model_ops(case):
     """-> (ops as the oracle sees them, mask of the ones that are calls of the case).  Loading a
     conditional g rule makes the Enforcer store the rule's parameter columns (assertion.py:104-111)."""
-    if case["kind"] != "ecrm":
+    if case["kind"] not in ("ecrm", "ecdm"):
         return case["ops"], [True] * len(case["ops"])
     out, mask = [], []
     for op in case["ops"]:
         out.append(op)
         mask.append(True)
         if op[0] == ADD:
-            out.append([PARAMS, op[1], op[2], 0, ECRM_DEFAULT_PARAMS])
+            out.append([PARAMS, op[1], op[2], op[3][0] if op[3] else 0, ECRM_DEFAULT_PARAMS])
             mask.append(False)
     return out, mask
 
@@ -281,8 +304,8 @@ def spec_check(case, obs):
     property's: reachability / direct assignments over the set of assignments in force"""
     kind, ops = case["kind"], case["ops"]
     L = ENFORCER_L if kind[0] == "e" else case["L"]
-    cond = kind in ("crm", "cdm", "ecrm")
-    domained = kind in ("dm", "cdm", "edm")
+    cond = kind in ("crm", "cdm", "ecrm", "ecdm")
+    domained = kind in ("dm", "cdm", "edm", "ecdm")
     tbl = {(r[0], tuple(r[1])): bool(r[2]) for r in case["tbl"]}
     links, fn, params = {}, {}, {}
     bad = []
@@ -302,8 +325,8 @@ def spec_check(case, obs):
             ls = links.setdefault(d, [])
             if (op[1], op[2]) not in ls:
                 ls.append((op[1], op[2]))
-            if kind == "ecrm":
-                params[(op[1], op[2], 0)] = tuple(ECRM_DEFAULT_PARAMS)
+            if kind in ("ecrm", "ecdm"):
+                params[(op[1], op[2], d if domained else 0)] = tuple(ECRM_DEFAULT_PARAMS)
         elif c == DEL:
             ls = links.setdefault(d, [])
             if (op[1], op[2]) in ls:
@@ -338,7 +361,7 @@ def in_scope(case):
     while in force; conditions of a ConditionalDomainManager are registered for domains that have a manager;
     no clear() on conditional managers (see chk.assumptions)"""
     kind = case["kind"]
-    domained = kind in ("dm", "cdm", "edm")
+    domained = kind in ("dm", "cdm", "edm", "ecdm")
     present, live = {}, set()
     for op in case["ops"]:
         c = op[0]
@@ -359,7 +382,7 @@ def in_scope(case):
             if kind in ("crm", "cdm"):
                 return False
             present, live = {}, set()
-        elif c in (COND, PARAMS) and kind == "cdm":
+        elif c in (COND, PARAMS) and kind in ("cdm", "ecdm"):
             if ((op[3],) not in live) and not (op[3] == 0 and () in live):
                 return False
     return True
@@ -549,7 +572,7 @@ def gen_conditions(rng, count, kinds):
         c = rng.randint(1, min(4, len(links)))
         carriers = rng.sample(links, c)
         L = rng.choice([1, 2, 3, 10])
-        if kind == "cdm":
+        if kind in ("cdm", "ecdm"):
             d, doms, qdoms = 3, [3], [[3], [4]]
         elif kind == "ecrm":
             d, doms, qdoms = 0, [], [[]]
@@ -558,12 +581,12 @@ def gen_conditions(rng, count, kinds):
             doms, qdoms = [], [[], [7]]
         for bits in itertools.product((0, 1), repeat=c):
             tbl, ops = [], [[ADD, u, r, doms] for (u, r) in links]
-            if kind == "cdm":
+            if kind in ("cdm", "ecdm"):
                 ops.append([ADD, 1, 2, [4]])          # a second domain without conditions
             pre = []
             for i, (u, r) in enumerate(carriers):
                 f = i + 1
-                if kind == "ecrm":
+                if kind in ("ecrm", "ecdm"):
                     tbl += [[f, ECRM_DEFAULT_PARAMS, bits[i]], [f, [6], 1 - bits[i]]]
                     pre.append([COND, u, r, d, f])
                 else:
@@ -584,10 +607,10 @@ def gen_conditions(rng, count, kinds):
             ops += queries
             # delete and re-add a carrier: the condition stays with the (user, role[, domain]) pair
             u, r = carriers[0]
-            if kind != "ecrm":
+            if kind not in ("ecrm", "ecdm"):
                 ops += [[DEL, u, r, doms], [HAS, u, r, qdoms[0]], [ADD, u, r, doms]]
                 ops += queries[:len(names) * len(names)]
-            if kind != "ecrm":
+            if kind not in ("ecrm", "ecdm"):
                 ops += [[ROLES, a, doms] for a in names] + [[USERS, a, doms] for a in names]
             yield dict(kind=kind, L=L, tbl=tbl, ops=ops, spec=True, stratum="conditions")
 
@@ -696,7 +719,7 @@ def run(chk, tier):
     feed(gen_random(rng, 30000 if thorough else 3000, ["rm", "dm", "dm", "crm", "cdm"]))
     feed(gen_random(rng, 4000 if thorough else 500, ["erm", "edm"]))
     # D: link conditions, all truth assignments
-    feed(gen_conditions(rng, 1500 if thorough else 150, ["crm", "crm", "cdm", "ecrm"]))
+    feed(gen_conditions(rng, 1500 if thorough else 150, ["crm", "crm", "cdm", "ecrm", "ecdm"]))
     # F: repeated adds (outside the property's quantifier): the model must still be the code
     feed(gen_random(rng, 10000 if thorough else 1200, ["rm", "dm", "crm", "cdm"], double_adds=True))
     spec_tie(chk, rng, 3)
